@@ -20,7 +20,7 @@ def run(ctx):
         ins = proggen.INPUTS + ['(x 3)', f'(l (p (s {symbol_value("a")}) (x 3)) (p (s {symbol_value("x")}) (i 1)))']
         for src, ast, root, stream in progs:
             f = proggen.features(root)
-            if stream in ('random', 'pairs', 'logic', 'loops') and not any(k in f for k in ('id', 'bin:Apply', 'applyto', 'suf')):
+            if stream in ('random', 'pairs', 'logic', 'loops', 'equality') and not any(k in f for k in ('id', 'bin:Apply', 'applyto', 'suf')):
                 continue      # no identifier, application or external involved: nothing for this property to observe
             for st in progsuite.STORES:
                 for host in progsuite.HOSTS:
@@ -35,7 +35,7 @@ def run(ctx):
                 src = t.replace('%s', name)
                 for st in progsuite.STORES + ['simpleclone']:      # simpleclone: executed on a clone of the built SimpleGarnishData
                     for host in progsuite.HOSTS:
-                        for inp in ('-', ins[3], '(x 3)', ins[-1]):
+                        for inp in ('-', ins[3], '(x 3)', ins[-1], proggen.INPUTS[-1]):
                             cid = str(len(cases))
                             cases.append(['RUN', cid, st, vlib.esc(src), inp, host])
                             meta[cid] = 'template'
